@@ -63,8 +63,9 @@ class X86Exec:
         k = s['k']
         if k == 'Compound':
             for x in s['s']:
-                if self._stmt(f, x, ev, depth):
-                    return True
+                r_ = self._stmt(f, x, ev, depth)
+                if r_:
+                    return r_
             return
         if k == 'If':
             c = val(s['c'])
@@ -75,6 +76,32 @@ class X86Exec:
             return self._stmt(f, s['t'] if c else s.get('e'), ev, depth)
         if k == 'Return':
             return True
+        if k == 'Break':
+            return 'break'
+        if k == 'Switch':
+            cn = strip_all(s['c'])
+            while cn['k'] == 'Cast' and type_info(cn.get('ty')) is None:
+                cn = strip_all(cn['e'])
+            c = ev.ev(cn).value()
+            if c is None:
+                raise AnalysisBroken('X86-HSEM: switch on %s at %s is not decided by the instruction fields' % (show(s['c'])[:60], loc(s, f)))
+            stmts = s['b']['s'] if s['b']['k'] == 'Compound' else [s['b']]
+            active = False
+            matched = any(val(x_['lhs']) == c for st in stmts for x_ in _labels(st) if x_['k'] == 'Case')
+            for st in stmts:
+                x_ = st
+                for lab in _labels(st):
+                    if (lab['k'] == 'Case' and val(lab['lhs']) == c) or (lab['k'] == 'Default' and not matched):
+                        active = True
+                while x_['k'] in ('Case', 'Default'):
+                    x_ = x_['sub']
+                if active:
+                    r_ = self._stmt(f, x_, ev, depth)
+                    if r_ == 'break':
+                        return
+                    if r_:
+                        return r_
+            return
         if k in ('Decl', 'Null'):
             ev._exec(s, [])
             return
@@ -82,6 +109,8 @@ class X86Exec:
         if top['k'] == 'Call':
             nm = top.get('name')
             where = loc(top, f)
+            if nm == '__builtin_unreachable':
+                raise AnalysisBroken('X86-HSEM: unreachable statement reached at %s' % where)
             if nm == 'emitByte':
                 self.put(ev.ev(top['a'][0]).resize(8, False), 1, where)
                 return
@@ -127,6 +156,14 @@ class X86Exec:
         if not any(c.get('name') not in ('__assert_fail', '__builtin_expect') for c in astq.calls(top)):
             return
         raise AnalysisBroken('X86-HSEM: unsupported statement %s at %s' % (show(top)[:60], loc(s, f)))
+
+
+def _labels(st):
+    out = []
+    while st['k'] in ('Case', 'Default'):
+        out.append(st)
+        st = st['sub']
+    return out
 
 
 def disassemble(seqs):
@@ -366,3 +403,115 @@ def rule_hsem(ctx, R):
             R.ok(inst, where)
     if n < 2500:
         raise AnalysisBroken('X86-HSEM: only %d cases evaluated' % n)
+
+
+# ---------------------------------------------------------------------------------------------------------------------------
+# SuperscalarHash emitter
+
+def ss_expected(name, d, s, sh, imm):
+    """specification Table 6.1.1"""
+    r = [atom(('reg', i)) for i in range(8)]
+    simm = const(imm | (0xffffffff00000000 if imm >> 31 else 0))
+    if name == 'ISUB_R':
+        r[d] = sub(r[d], r[s])
+    elif name == 'IXOR_R':
+        r[d] = xor(r[d], r[s])
+    elif name == 'IADD_RS':
+        r[d] = add(r[d], scale(r[s], 1 << sh))
+    elif name == 'IMUL_R':
+        r[d] = mul(r[d], r[s])
+    elif name == 'IROR_C':
+        r[d] = ror(r[d], const(imm & 63))
+    elif name.startswith('IADD_C'):
+        r[d] = add(r[d], simm)
+    elif name.startswith('IXOR_C'):
+        r[d] = xor(r[d], simm)
+    elif name == 'IMULH_R':
+        r[d] = hi('umulh', r[d], r[s])
+    elif name == 'ISMULH_R':
+        r[d] = hi('smulh', r[d], r[s])
+    elif name == 'IMUL_RCP':
+        r[d] = mul(r[d], const(RCP_MARK))
+    else:
+        raise AnalysisBroken('X86-HSEM: no specification term for SuperscalarHash instruction ' + name)
+    return r
+
+
+def ss_cases(types):
+    """(name, dst, src, shift, imm) for every instruction kind; operand combinations the generator can produce (spec 6.1.1 rules: IADD_RS never targets r5,
+    the rotation count and the reciprocal divisor are never trivial)"""
+    for name in sorted(types):
+        for d in range(8):
+            for s in range(8):
+                if name == 'IADD_RS' and d == 5:
+                    continue
+                if name in ('IROR_C',) or name.startswith('IADD_C') or name.startswith('IXOR_C') or name == 'IMUL_RCP':
+                    if s != 0:
+                        continue
+                    imms = (1, 31, 32, 63) if name == 'IROR_C' else ((3, 0xFFFFFFFF, 0x80000001) if name == 'IMUL_RCP' else T.IMMS)
+                    for imm in imms:
+                        yield name, d, d, 0, imm
+                    continue
+                for sh in ((0, 1, 2, 3) if name == 'IADD_RS' else (0,)):
+                    yield name, d, s, sh, 0x12345678
+
+
+def rule_ss_hsem(ctx, R):
+    F, hs = jit.handlers(ctx, 'x86')
+    cls = 'randomx::JitCompilerX86'
+    R.rule('X86-SS-HSEM', 'for each of the 14 SuperscalarHash instruction kinds the bytes generateSuperscalarCode emits, disassembled and given their architectural meaning on terms over r0..r7, compute what specification Table 6.1.1 '
+           'prescribes (sign-extended constants, rotation count, scaled source, high products, cached reciprocal as multiplier) and change no other register; every dst x src the generator can produce, boundary constants', min_instances=500)
+    R.saw(config='K0', unit='src/jit_compiler_x86.cpp')
+    g = F.func(cls + '::generateSuperscalarCode')
+    R.saw(fn=g['q'])
+    types = {k: v for k, v in F.enum('randomx::SuperscalarInstructionType').items() if k not in ('COUNT', 'INVALID')}
+    cases = []
+    for name, d, s, sh, imm in ss_cases(types):
+        fields = {'dst': KB.const(8, d), 'src': KB.const(8, s), 'mod': KB.const(8, sh << 2), 'opcode': KB.const(8, types[name])}
+        ov = {'randomx::Instruction::getImm32': KB.const(32, imm), 'randomx::Instruction::getModShift': KB.const(32, sh),
+              'std::vector<unsigned long, std::allocator<unsigned long>>::operator[]': KB.const(64, RCP_MARK), 'randomx_reciprocal_fast': KB.const(64, RCP_MARK), 'randomx_reciprocal': KB.const(64, RCP_MARK)}
+        ex = X86Exec(F, cls, fields, ov)
+        ex.run(g, [None, None])
+        cases.append((name, d, s, sh, imm, tuple(ex.bytes)))
+    dis = disassemble([c[-1] for c in cases if c[-1]])
+    where = '%s:%d' % (g['file'], g['line'])
+    n = 0
+    for name, d, s, sh, imm, code in cases:
+        n += 1
+        m = Machine()
+        tr, bad, pos = [], None, 0
+        if not code:
+            bad = 'nothing is emitted'
+        for mn, ops, nb, off in (dis.get(code, []) if code else []):
+            tr.append((mn + ' ' + ops).strip())
+            if off != pos or off + nb > len(code) or mn == '(bad)':
+                bad = 'the bytes %s do not decode to whole instructions (%s)' % (bytes(code).hex(), ' ; '.join(tr))
+                break
+            pos = off + nb
+            if not m.step(mn, ops):
+                bad = 'after `%s` the emitter produces `%s %s`, which is not a register-to-register integer instruction of the modelled subset' % (' ; '.join(tr[:-1]), mn, ops)
+                break
+        if bad is None and pos != len(code):
+            bad = 'the bytes %s do not decode to whole instructions' % bytes(code).hex()
+        if bad is None:
+            got = [m.get(8 + i) for i in range(8)]
+            exp = ss_expected(name, d, s, sh, imm)
+            for i in range(8):
+                if got[i] != exp[i]:
+                    differs = None
+                    for vals in T.VALUATIONS:
+                        a_, b_ = T.term_eval(got[i].canon(), vals), T.term_eval(exp[i].canon(), vals)
+                        if a_ != b_:
+                            differs = (vals, a_, b_)
+                            break
+                    if differs is None:
+                        raise AnalysisBroken('X86-SS-HSEM: %s dst=r%d src=r%d: r%d is %s, the specification says %s; equivalence undecided' % (name, d, s, i, T.term_show(got[i], None), T.term_show(exp[i], None)))
+                    bad = 'r%d = %s after `%s` (specification: %s); e.g. the code gives %#x, the specification %#x' % (i, T.term_show(got[i], None), ' ; '.join(tr), T.term_show(exp[i], None), differs[1], differs[2])
+                    break
+        inst = 'superscalar %s dst=r%d src=r%d%s imm32=%#x' % (name, d, s, ' shift=%d' % sh if name == 'IADD_RS' else '', imm)
+        if bad:
+            R.violation(inst, where, expected='registers as in specification Table 6.1.1', found=bad)
+        else:
+            R.ok(inst, where)
+    if n < 500:
+        raise AnalysisBroken('X86-SS-HSEM: only %d cases evaluated' % n)
